@@ -153,10 +153,22 @@ class StringV:
 
 
 class StrRef:
-    __slots__ = ('chars',)
+    """&str: chars plus (for sub-slices) the identity of the string it was cut from and its byte offset in it"""
+    __slots__ = ('chars', 'base', 'off')
 
-    def __init__(self, chars=()):
+    def __init__(self, chars=(), base=None, off=0):
         self.chars = tuple(chars)
+        self.base = base
+        self.off = off
+
+    def sub(self, i, j):
+        """sub-slice by char indices, keeping provenance"""
+        if self.base is None:
+            self.base = object()
+        off = self.off
+        for c in self.chars[:i]:
+            off += 1 if not isinstance(c, int) else (1 if c < 0x80 else 2 if c < 0x800 else 3 if c < 0x10000 else 4)
+        return StrRef(self.chars[i:j], self.base, off)
 
     def __repr__(self):
         return "str(%r)" % (chars_repr(self.chars),)
@@ -397,6 +409,9 @@ class Program:
         raise KeyError((self.types[tid]['str'], fname))
 
     def find(self, suffix):
+        for r0 in self.roots:
+            if r0.get('root') == suffix and r0.get('inst'):
+                return r0['inst']
         r = [k for k, v in self.inst.items() if v['name'] == suffix]
         if not r:
             r = [k for k, v in self.inst.items() if v['name'].endswith(suffix)]
